@@ -53,6 +53,11 @@ package strategy
 //@ requires[C07,C05] 0 <= k && k <= len(a) && (forall j :: 0 <= j && j < len(a) ==> 0 - 1 <= a[j] && a[j] <= 1)
 //@ ensures[C07,C05] 0 - 1 <= dlast(a, k) && dlast(a, k) <= 1
 //@ induction k
+// the standing recommendation depends only on the actions seen so far: equal prefixes give equal standing actions
+//@ lemma dlast_cong(a istream, b istream, k int)
+//@ requires[C18] 0 <= k && k <= len(a) && k <= len(b) && (forall j :: 0 <= j && j < k ==> a[j] == b[j])
+//@ ensures[C18] dlast(a, k) == dlast(b, k)
+//@ induction k
 //@ lemma dlast_hold(a istream, w int, k int)
 //@ requires[C07,C05] 0 <= k && k <= w && k <= len(a) && (forall j :: 0 <= j && j < w && j < len(a) ==> a[j] == 0)
 //@ ensures[C07,C05] dlast(a, k) == 0
@@ -133,6 +138,12 @@ package strategy
 //@ loop#0 invariant forall k :: 0 <= k && k < sent(actions) ==> actions[k] == (k == 0 ? Buy : Hold) && hor(actions, k) <= hor(snapshots, k)
 
 // Split: Buy from the first, Sell from the second, unless they conflict (C07)
+// unit invariance of a combinator is conditional on that of its members: subinvN(i, lam) says the i-th wrapped Compute
+// call, handed price-scaled snapshots in the second run, recommends the same actions (volume: subinvvN)
+//@ macro subinv0(lam) = (len(second(arg(Strategy_Compute, 0, 0))) == len(arg(Strategy_Compute, 0, 0)) && (forall k :: 0 <= k && k < len(arg(Strategy_Compute, 0, 0)) ==> pscaled(second(arg(Strategy_Compute, 0, 0))[k], arg(Strategy_Compute, 0, 0)[k], lam))) ==> (len(second(res(Strategy_Compute, 0))) == len(res(Strategy_Compute, 0)) && (forall k :: 0 <= k && k < len(res(Strategy_Compute, 0)) ==> second(res(Strategy_Compute, 0))[k] == res(Strategy_Compute, 0)[k]))
+//@ macro subinv1(lam) = (len(second(arg(Strategy_Compute, 1, 0))) == len(arg(Strategy_Compute, 1, 0)) && (forall k :: 0 <= k && k < len(arg(Strategy_Compute, 1, 0)) ==> pscaled(second(arg(Strategy_Compute, 1, 0))[k], arg(Strategy_Compute, 1, 0)[k], lam))) ==> (len(second(res(Strategy_Compute, 1))) == len(res(Strategy_Compute, 1)) && (forall k :: 0 <= k && k < len(res(Strategy_Compute, 1)) ==> second(res(Strategy_Compute, 1))[k] == res(Strategy_Compute, 1)[k]))
+//@ macro subinvv0(mu) = (len(second(arg(Strategy_Compute, 0, 0))) == len(arg(Strategy_Compute, 0, 0)) && (forall k :: 0 <= k && k < len(arg(Strategy_Compute, 0, 0)) ==> vscaled(second(arg(Strategy_Compute, 0, 0))[k], arg(Strategy_Compute, 0, 0)[k], mu))) ==> (len(second(res(Strategy_Compute, 0))) == len(res(Strategy_Compute, 0)) && (forall k :: 0 <= k && k < len(res(Strategy_Compute, 0)) ==> second(res(Strategy_Compute, 0))[k] == res(Strategy_Compute, 0)[k]))
+//@ macro subinvv1(mu) = (len(second(arg(Strategy_Compute, 1, 0))) == len(arg(Strategy_Compute, 1, 0)) && (forall k :: 0 <= k && k < len(arg(Strategy_Compute, 1, 0)) ==> vscaled(second(arg(Strategy_Compute, 1, 0))[k], arg(Strategy_Compute, 1, 0)[k], mu))) ==> (len(second(res(Strategy_Compute, 1))) == len(res(Strategy_Compute, 1)) && (forall k :: 0 <= k && k < len(res(Strategy_Compute, 1)) ==> second(res(Strategy_Compute, 1))[k] == res(Strategy_Compute, 1)[k]))
 //@ func SplitStrategy.Compute
 //@ requires consumed(snapshots) == 0
 //@ ensures[C05] len(result) >= len(snapshots) && (len(snapshots) >= warmup(s.BuyStrategy) && len(snapshots) >= warmup(s.SellStrategy) ==> len(result) == len(snapshots))
@@ -142,6 +153,19 @@ package strategy
 //@ loop#0 invariant consumed(buyActions) == sent(result) && consumed(sellActions) == sent(result) && !closed(result)
 //@ loop#0 invariant forall k :: 0 <= k && k < sent(result) ==> result[k] == ((buyActions[k] == Buy && sellActions[k] != Sell) ? Buy : ((sellActions[k] == Sell && buyActions[k] != Buy) ? Sell : Hold))
 //@ loop#0 invariant forall k :: 0 <= k && k < sent(result) && k < len(snapshots) ==> hor(result, k) <= hor(snapshots, k)
+//@ ensures[C07,C18] "split-rule" len(result) == min(len(res(Strategy_Compute, 0)), len(res(Strategy_Compute, 1))) && (forall k :: 0 <= k && k < len(result) ==> result[k] == ((res(Strategy_Compute, 0)[k] == Buy && res(Strategy_Compute, 1)[k] != Sell) ? Buy : ((res(Strategy_Compute, 1)[k] == Sell && res(Strategy_Compute, 0)[k] != Buy) ? Sell : Hold)))
+//@ rel[C18] "price" param lam real
+//@ rel[C18] "price" assume lam > 0 && len(second(snapshots)) == len(snapshots) && (forall k :: 0 <= k && k < len(snapshots) ==> pscaled(second(snapshots)[k], snapshots[k], lam))
+//@ rel[C18] "price" assume subinv0(lam)
+//@ rel[C18] "price" assume subinv1(lam)
+//@ rel[C18] "price" step len(second(result)) == min(len(second(res(Strategy_Compute, 0))), len(second(res(Strategy_Compute, 1)))) && len(result) == min(len(res(Strategy_Compute, 0)), len(res(Strategy_Compute, 1)))
+//@ rel[C18] "price" ensures len(second(result)) == len(result) && (forall k :: 0 <= k && k < len(result) ==> second(result)[k] == result[k])
+//@ rel[C18] "volume" param mu real
+//@ rel[C18] "volume" assume mu > 0 && len(second(snapshots)) == len(snapshots) && (forall k :: 0 <= k && k < len(snapshots) ==> vscaled(second(snapshots)[k], snapshots[k], mu))
+//@ rel[C18] "volume" assume subinvv0(mu)
+//@ rel[C18] "volume" assume subinvv1(mu)
+//@ rel[C18] "volume" step len(second(result)) == min(len(second(res(Strategy_Compute, 0))), len(second(res(Strategy_Compute, 1)))) && len(result) == min(len(res(Strategy_Compute, 0)), len(res(Strategy_Compute, 1)))
+//@ rel[C18] "volume" ensures len(second(result)) == len(result) && (forall k :: 0 <= k && k < len(result) ==> second(result)[k] == result[k])
 
 // ---- voting combinators over a symbolic number K >= 1 of wrapped strategies (array mode) -----------------------
 //@ func CountActions
